@@ -316,7 +316,34 @@ def step_table(ctx: Ctx, rule: str) -> None:
     ctx.record(rule + "w", "TABLE", f.ref, "a decorated step runs once and returns 0 if runner.all_results_ok() else 1", ok4, {}, "" if ok4 else "a step's exit code no longer reflects its tests' results")
 
 
+def unset_default(ctx: Ctx, rule: str) -> None:
+    """unset: the stronger default mode (fi) is only a default — injected per vm only if the user gave neither unset_mode_<vm> nor unset_mode."""
+    from ..kinds import function_views, expr_formula
+
+    fref = f"{IS}:unset"
+    fn = ctx.repo.func(fref)
+    ctx.touch(fref)
+    views = function_views(ctx, fref, lambda n: isinstance(n, ast.Subscript) and isinstance(n.ctx, ast.Store))
+    n_sites = 0
+    bad = None
+    for v in views:
+        for i, st in v.stmts(lambda s_: isinstance(s_, ast.Assign) and ast.unparse(s_.targets[0]).startswith("setup_dict[") and isinstance(s_.value, ast.Constant) and s_.value.value == "fi"):
+            n_sites += 1
+            key = ast.unparse(st.targets[0].slice)
+            prem = v.premise(i, 0)
+            want = norm.conj([norm.neg(expr_formula(v, i, f"{key} in setup_dict")), norm.neg(expr_formula(v, i, "op_mode in setup_dict"))])
+            if not norm.implies(prem, want):
+                bad = v
+    stores = [s_ for s_ in ast.walk(fn.node) if isinstance(s_, ast.Assign) and ast.unparse(s_.targets[0]).startswith("setup_dict[")]
+    defs = {ast.unparse(s_.targets[0]): ast.unparse(s_.value) for s_ in ast.walk(fn.node) if isinstance(s_, ast.Assign) and isinstance(s_.targets[0], ast.Name)}
+    ok = bad is None and n_sites >= 1 and len(stores) == 1 and defs.get("vm_op_mode") == "op_mode + '_' + vm.suffix" and defs.get("op_mode") == "'unset_mode'" \
+        and defs.get("setup_dict") == "config['param_dict'].copy()"
+    ctx.record(rule, "GUARD", fref, "setup_dict['unset_mode_<vm>'] = 'fi' only when neither unset_mode_<vm> nor unset_mode is among the user's parameters", ok, {"paths_with_store": n_sites},
+               "" if ok else "the default unset mode of the unset step overrides a mode the user gave (generic or per vm), or is no longer applied per vm")
+
+
 def run(ctx: Ctx) -> None:
+    ctx.call(unset_default, "6")
     ctx.call(chain_loop, "1")
     ctx.call(per_vm_template, "2")
     ctx.call(per_worker_template, "3")
@@ -331,6 +358,8 @@ def run(ctx: Ctx) -> None:
 
 M = "plugins/manu.py"
 MUTANTS = [
+    ("unset-default-overrides-generic", "intertest_setup.py", "        state_mode = vm_op_mode if vm_op_mode in setup_dict else op_mode\n        if state_mode not in setup_dict:", "        if vm_op_mode not in setup_dict:", "6"),
+    ("P-unset-default-explicit", "intertest_setup.py", "        state_mode = vm_op_mode if vm_op_mode in setup_dict else op_mode\n        if state_mode not in setup_dict:", "        if vm_op_mode not in setup_dict and op_mode not in setup_dict:", None),
     ("shutdown-boots", "intertest_setup.py", "(\"Shutting down\", \"stop\", \"shutdown\", \"Shutdown\")", "(\"Shutting down\", \"start\", \"shutdown\", \"Shutdown\")", "m"),
     ("stop-first-worker-only", "intertest_setup.py", "    for worker in workers:\n        worker.stop()", "    for worker in workers[:1]:\n        worker.stop()", "k"),
     ("last-step-decides", M, "                if setup_func(config, \"0m%s\" % i) not in [None, 0]:\n                    # return 1 if at least one of the steps fails\n                    retcode = 1",
